@@ -12,6 +12,60 @@
 #include <iomanip>
 #endif // DF__SQF_RUNTIME__ASSEMBLY_DEBUG_ON_EXECUTE
 
+// Handles a raised runtime error (runtime.__runtime_error() == true):
+// hands it to the nearest frame that can recover from it or, if there is none,
+// logs the stacktrace. Returns false if the run has to end with runtime_error.
+static bool handle_runtime_error(sqf::runtime::runtime& runtime, sqf::runtime::context& context_active, sqf::runtime::diagnostics::diag_info dinf)
+{
+    auto& runtime_error = runtime.__runtime_error();
+    auto log_messages = runtime.log_messages;
+    runtime.log_messages.clear();
+    // Build Stacktrace
+    std::vector<sqf::runtime::frame> stacktrace_frames(context_active.frames_rbegin(), context_active.frames_rend());
+    sqf::runtime::diagnostics::stacktrace stacktrace(stacktrace_frames);
+
+    // Try to find a frame that has recover behavior for runtime error
+    auto res = std::find_if(context_active.frames_rbegin(), context_active.frames_rend(),
+        [](sqf::runtime::frame& frame) -> bool { return frame.can_recover_runtime_error(); });
+
+    if (res != context_active.frames_rend())
+    { // We found a recoverable frame
+        stacktrace.value = std::make_shared<sqf::types::d_array>(log_messages.begin(), log_messages.end());
+        // Push Stacktrace to value-stack
+        context_active.push_value({ std::make_shared<sqf::types::d_stacktrace>(stacktrace) });
+
+        // Pop all frames between result and current_frame
+        size_t frames_to_pop = res - context_active.frames_rbegin();
+        for (size_t i = 0; i < frames_to_pop; i++)
+        {
+            context_active.pop_frame();
+        }
+
+        // Recover from exception
+        context_active.current_frame().recover_runtime_error(runtime);
+        runtime_error = false;
+#ifdef SQFVM_RUNTIME_VERIF
+        sqf::runtime::verif::observe(sqf::runtime::verif::obs::err_unwind, runtime, frames_to_pop);
+#endif
+        return true;
+    }
+    else
+    { // No recover frame available, exit method
+#ifdef DF__SQF_RUNTIME__ASSEMBLY_DEBUG_ON_EXECUTE
+        std::cout << "\x1B[33m[ASSEMBLY ASSERT]\033[0m" <<
+            "        " <<
+            "        " <<
+            "    " << "\x1B[36mEXIT execute_do\033[0m as runtime error occured" << std::endl;
+#endif // DF__SQF_RUNTIME__ASSEMBLY_DEBUG_ON_EXECUTE
+        runtime.__logmsg(logmessage::runtime::Stacktrace(dinf, stacktrace));
+        runtime_error = false;
+#ifdef SQFVM_RUNTIME_VERIF
+        sqf::runtime::verif::observe(sqf::runtime::verif::obs::err_fail, runtime, 0);
+#endif
+        return false;
+    }
+}
+
 static sqf::runtime::runtime::result execute_do(sqf::runtime::runtime& runtime, size_t exit_after)
 {
     auto& context_active = runtime.context_active();
@@ -74,6 +128,16 @@ static sqf::runtime::runtime::result execute_do(sqf::runtime::runtime& runtime, 
         auto& frame = context_active.current_frame();
 
         auto result = frame.next(runtime);
+
+        if (runtime_error)
+        { // An exit behavior raised an error while advancing. Handle it now,
+          // before any further instruction of this (or another) script executes.
+            if (!handle_runtime_error(runtime, context_active, context_active.current_frame().diag_info_from_position()))
+            {
+                return sqf::runtime::runtime::result::runtime_error;
+            }
+            continue;
+        }
 
         if (result == sqf::runtime::frame::result::done && context_active.frames_size() == frame_count)
         { // frame is done executing. Pop it from context and rerun.
@@ -225,53 +289,9 @@ static sqf::runtime::runtime::result execute_do(sqf::runtime::runtime& runtime, 
         {
             runtime.log_messages.clear();
         }
-        else
+        else if (!handle_runtime_error(runtime, context_active, (*instruction)->diag_info()))
         {
-            auto log_messages = runtime.log_messages;
-            runtime.log_messages.clear();
-            // Build Stacktrace
-            std::vector<sqf::runtime::frame> stacktrace_frames(context_active.frames_rbegin(), context_active.frames_rend());
-            sqf::runtime::diagnostics::stacktrace stacktrace(stacktrace_frames);
-
-            // Try to find a frame that has recover behavior for runtime error
-            auto res = std::find_if(context_active.frames_rbegin(), context_active.frames_rend(),
-                [](sqf::runtime::frame& frame) -> bool { return frame.can_recover_runtime_error(); });
-
-            if (res != context_active.frames_rend())
-            { // We found a recoverable frame
-                stacktrace.value = std::make_shared<sqf::types::d_array>(log_messages.begin(), log_messages.end());
-                // Push Stacktrace to value-stack
-                context_active.push_value({ std::make_shared<sqf::types::d_stacktrace>(stacktrace) });
-
-                // Pop all frames between result and current_frame
-                size_t frames_to_pop = res - context_active.frames_rbegin();
-                for (size_t i = 0; i < frames_to_pop; i++)
-                {
-                    context_active.pop_frame();
-                }
-
-                // Recover from exception
-                context_active.current_frame().recover_runtime_error(runtime);
-                runtime_error = false;
-#ifdef SQFVM_RUNTIME_VERIF
-                sqf::runtime::verif::observe(sqf::runtime::verif::obs::err_unwind, runtime, frames_to_pop);
-#endif
-            }
-            else
-            { // No recover frame available, exit method
-#ifdef DF__SQF_RUNTIME__ASSEMBLY_DEBUG_ON_EXECUTE
-                std::cout << "\x1B[33m[ASSEMBLY ASSERT]\033[0m" <<
-                    "        " <<
-                    "        " <<
-                    "    " << "\x1B[36mEXIT execute_do\033[0m as runtime error occured" << std::endl;
-#endif // DF__SQF_RUNTIME__ASSEMBLY_DEBUG_ON_EXECUTE
-                runtime.__logmsg(logmessage::runtime::Stacktrace((*instruction)->diag_info(), stacktrace));
-                runtime_error = false;
-#ifdef SQFVM_RUNTIME_VERIF
-                sqf::runtime::verif::observe(sqf::runtime::verif::obs::err_fail, runtime, 0);
-#endif
-                return sqf::runtime::runtime::result::runtime_error;
-            }
+            return sqf::runtime::runtime::result::runtime_error;
         }
 #ifdef SQFVM_RUNTIME_VERIF
         sqf::runtime::verif::observe(sqf::runtime::verif::obs::instr_done, runtime, 0);
